@@ -188,6 +188,20 @@ static void uhostunix(void) {
   free(s);
 }
 
+/* uunix <pmax> <bytes> : coap_address_set_unix_domain on an exact-size host; sun_path as C string */
+static void uunix(void) {
+  size_t n;
+  uint8_t *s = exact_tok(vtok[2], &n);
+  coap_address_t a;
+  int r = coap_address_set_unix_domain(&a, s, n);
+  printf("max=%zu rc=%d path=", (size_t)COAP_UNIX_PATH_MAX, r);
+  if (r) full_hex(stdout, (const uint8_t *)a.addr.cun.sun_path,
+                  strnlen(a.addr.cun.sun_path, COAP_UNIX_PATH_MAX));
+  else fputs("-", stdout);
+  fputc('\n', stdout);
+  free(s);
+}
+
 /* uinto <create_port_host> <dst address text | -> <bytes> : coap_split_uri + coap_uri_into_optlist */
 static void uinto(void) {
   int create = atoi(vtok[1]);
@@ -239,6 +253,8 @@ int main(void) {
     else if (!strcmp(vtok[0], "uinto") && vntok == 4) uinto();
     else if (!strcmp(vtok[0], "unew") && vntok == 3) unew();
     else if (!strcmp(vtok[0], "uhostunix") && vntok == 2) uhostunix();
+    else if (!strcmp(vtok[0], "uunix") && vntok == 3) uunix();
+    else if (!strcmp(vtok[0], "uunixmax")) printf("%zu\n", (size_t)COAP_UNIX_PATH_MAX);
     else puts("ERROR unknown command");
     fflush(stdout);
   }
